@@ -195,6 +195,7 @@ fn worker(spec: &CheckSpec, args: &[String]) -> ! {
     let dir = arg_val(args, "--dir").unwrap_or_else(|| ".".into());
     let scale: f64 = arg_val(args, "--scale").and_then(|s| s.parse().ok()).unwrap_or(1.0);
     let wall: u64 = arg_val(args, "--wall").and_then(|s| s.parse().ok()).unwrap_or(u64::MAX / 4);
+    let only: Option<String> = arg_val(args, "--only");
     let resume: Option<(usize, u64)> = arg_val(args, "--resume").and_then(|s| {
         let mut p = s.split(':');
         Some((p.next()?.parse().ok()?, p.next()?.parse().ok()?))
@@ -210,6 +211,11 @@ fn worker(spec: &CheckSpec, args: &[String]) -> ! {
     let mut truncated = false;
     'outer: for (j, sc) in spec.scenarios.iter().enumerate() {
         let name = sc.name();
+        if let Some(o) = &only {
+            if !name.contains(o.as_str()) {
+                continue;
+            }
+        }
         let budget = ((sc.budget(tier) as f64) * scale).ceil() as u64;
         let st = stats.entry(name.clone()).or_default();
         let _ = st;
@@ -268,7 +274,7 @@ fn worker(spec: &CheckSpec, args: &[String]) -> ! {
                     }
                 }
             }
-            if last_flush.elapsed() > Duration::from_millis(1500) {
+            if last_flush.elapsed() > Duration::from_millis(400) {
                 worker_flush(&dir, k, gen, &stats, &mut hashes, false);
                 last_flush = Instant::now();
             }
@@ -472,7 +478,14 @@ fn rehash_cmd(spec: &CheckSpec, args: &[String]) -> ! {
 // parent
 
 fn make_scratch(id: &str) -> String {
-    let d = format!("{}/scratch/{}-{}", verif_dir(), id, std::process::id());
+    // tmpfs when there is one: workers rewrite a tiny progress file before every run
+    let base = if std::fs::metadata("/dev/shm").map(|m| m.is_dir()).unwrap_or(false) && std::fs::write(format!("/dev/shm/.zsim-probe-{}", std::process::id()), b"x").is_ok() {
+        let _ = std::fs::remove_file(format!("/dev/shm/.zsim-probe-{}", std::process::id()));
+        "/dev/shm/zsim-scratch".to_string()
+    } else {
+        format!("{}/scratch", verif_dir())
+    };
+    let d = format!("{}/{}-{}", base, id, std::process::id());
     let _ = std::fs::remove_dir_all(&d);
     std::fs::create_dir_all(&d).unwrap_or_else(|e| harness_error(&format!("mkdir {}: {}", d, e)));
     d
@@ -487,13 +500,16 @@ struct Proc {
     restarts: u32,
 }
 
-fn spawn_worker(spec: &CheckSpec, tier: Tier, base: u64, k: u64, of: u64, gen: u64, dir: &str, scale: f64, wall: u64, resume: Option<(usize, u64)>) -> std::process::Child {
+fn spawn_worker(spec: &CheckSpec, tier: Tier, base: u64, k: u64, of: u64, gen: u64, dir: &str, scale: f64, wall: u64, resume: Option<(usize, u64)>, only: &Option<String>) -> std::process::Child {
     let exe = std::env::current_exe().unwrap();
     let mut c = Command::new(exe);
     c.arg("worker").arg("--tier").arg(tier.name()).arg("--seed").arg(base.to_string()).arg("--k").arg(k.to_string()).arg("--of").arg(of.to_string());
     c.arg("--gen").arg(gen.to_string()).arg("--dir").arg(dir).arg("--scale").arg(scale.to_string()).arg("--wall").arg(wall.to_string());
     if let Some((j, i)) = resume {
         c.arg("--resume").arg(format!("{}:{}", j, i));
+    }
+    if let Some(o) = only {
+        c.arg("--only").arg(o);
     }
     let _ = spec;
     c.stdout(Stdio::null()).stderr(Stdio::null());
@@ -517,7 +533,6 @@ fn parent(spec: &CheckSpec, args: &[String]) -> ! {
         Tier::Quick => spec.quick_wall_s,
         Tier::Thorough => spec.thorough_wall_s,
     };
-    let _ = only;
     let vdir = verif_dir();
     let known = known::load(&format!("{}/known_findings.json", vdir));
     let scratch = make_scratch(spec.id);
@@ -525,7 +540,7 @@ fn parent(spec: &CheckSpec, args: &[String]) -> ! {
 
     // ---- run the workers, supervising deaths and hangs
     let mut procs: Vec<Proc> = (0..workers)
-        .map(|k| Proc { k, gen: 0, child: spawn_worker(spec, tier, base, k, workers, 0, &scratch, scale, wall, None), last_cur: String::new(), last_change: Instant::now(), restarts: 0 })
+        .map(|k| Proc { k, gen: 0, child: spawn_worker(spec, tier, base, k, workers, 0, &scratch, scale, wall, None, &only), last_cur: String::new(), last_change: Instant::now(), restarts: 0 })
         .collect();
     let mut deaths: Vec<(usize, u64, String)> = vec![]; // (scenario index, run index, class)
     let mut live = procs.len();
@@ -576,7 +591,7 @@ fn parent(spec: &CheckSpec, args: &[String]) -> ! {
                             continue;
                         }
                         p.gen += 1;
-                        p.child = spawn_worker(spec, tier, base, p.k, workers, p.gen, &scratch, scale, wall.saturating_sub(t0.elapsed().as_secs()).max(5), Some((j, i)));
+                        p.child = spawn_worker(spec, tier, base, p.k, workers, p.gen, &scratch, scale, wall.saturating_sub(t0.elapsed().as_secs()).max(5), Some((j, i)), &only);
                         p.last_change = Instant::now();
                     }
                     None => harness_error(&format!("worker {} died ({}) before its first run", p.k, class)),
@@ -719,6 +734,11 @@ fn parent(spec: &CheckSpec, args: &[String]) -> ! {
     let mut unreproduced: Vec<Value> = vec![];
     let mut exit_code = 0;
     let replays_dir = format!("{}/replays", vdir);
+    // shrinking budget for the whole check: new violations are all reported and replayable, but only the
+    // first few are minimised (each minimisation costs seconds)
+    let mut shrinks_left: u32 = if tier == Tier::Quick { 6 } else { 24 };
+    let t_triage = Instant::now();
+    let triage_cap = Duration::from_secs(if tier == Tier::Quick { 90 } else { 900 });
     for (ci, cand) in candidates.iter().enumerate() {
         let scen = cand["scenario"].as_str().unwrap_or("").to_string();
         let class = cand["class"].as_str().unwrap_or("").to_string();
@@ -753,7 +773,8 @@ fn parent(spec: &CheckSpec, args: &[String]) -> ! {
             rec["tapes"] = o.tapes.clone();
         }
         rec["hash"] = json!(o.hash);
-        let kn = known::matches(&known, spec.id, &scen, &class, &site);
+        let detail_now = rec["detail"].as_str().unwrap_or("").to_string();
+        let kn = known::matches(&known, spec.id, &scen, &class, &site, &detail_now);
         if let Some(k) = kn {
             println!("KNOWN-FINDING: property={} scenario={} class={} site={} count={} first_seed={} ({})", spec.id, scen, class, site, cand["count"], cand["seed"], k.what);
             known_seen.push(json!({"scenario": scen, "class": class, "site": site, "count": cand["count"], "first_index": cand["index"], "what": k.what}));
@@ -762,14 +783,43 @@ fn parent(spec: &CheckSpec, args: &[String]) -> ! {
         // shrink
         let before = shrink::tape_len(&rec["tapes"]);
         let dies = class.starts_with("crash") || class == "hang" || class == "alloc_limit";
-        if !dies {
+        let do_shrink = shrinks_left > 0 && t_triage.elapsed() < triage_cap;
+        if do_shrink {
+            shrinks_left -= 1;
+        } else {
+            rec["not_minimised"] = json!("shrinking budget of this check was used up by earlier violations");
+        }
+        if !do_shrink {
+        } else if !dies {
             let inp = format!("{}/shrink-in-{}.json", scratch, ci);
             let outp = format!("{}/shrink-out-{}.json", scratch, ci);
             std::fs::write(&inp, serde_json::to_vec(&rec).unwrap()).unwrap();
             let exe = std::env::current_exe().unwrap();
-            let secs = if tier == Tier::Quick { 25 } else { 60 };
-            let st = Command::new(exe).arg("shrink").arg(&inp).arg(&outp).arg("--secs").arg(secs.to_string()).stdout(Stdio::null()).stderr(Stdio::null()).status();
-            if st.map(|s| s.success()).unwrap_or(false) {
+            let secs = if tier == Tier::Quick { 12 } else { 60 };
+            // the shrinker runs candidates in-process; a candidate that hangs or kills it must not
+            // take the check down: watchdog + fall back to the unminimised tapes
+            let ok = match Command::new(exe).arg("shrink").arg(&inp).arg(&outp).arg("--secs").arg(secs.to_string()).stdout(Stdio::null()).stderr(Stdio::null()).spawn() {
+                Ok(mut ch) => {
+                    let t_s = Instant::now();
+                    loop {
+                        match ch.try_wait() {
+                            Ok(Some(s)) => break s.success(),
+                            Ok(None) => {
+                                if t_s.elapsed().as_secs() > secs + 20 {
+                                    let _ = ch.kill();
+                                    let _ = ch.wait();
+                                    rec["not_minimised"] = json!("the shrinker did not finish in time");
+                                    break false;
+                                }
+                                std::thread::sleep(Duration::from_millis(10));
+                            }
+                            Err(_) => break false,
+                        }
+                    }
+                }
+                Err(_) => false,
+            };
+            if ok {
                 let r = read_json(&outp);
                 // the minimised tapes must fail the same way in a fresh process
                 let o2 = eval_in_child(&scratch, &format!("min{}", ci), &r, spec.hang_secs);
@@ -933,7 +983,7 @@ fn selftest_cmd(spec: &CheckSpec, args: &[String]) -> ! {
             let out = k.wait_with_output().unwrap();
             for line in String::from_utf8_lossy(&out.stdout).lines() {
                 let p: Vec<&str> = line.split_whitespace().collect();
-                if p.len() == 4 {
+                if p.len() == 4 && p[0] == "HASH" {
                     m.insert((p[1].to_string(), p[2].to_string()), p[3].to_string());
                 }
             }
@@ -951,7 +1001,7 @@ fn selftest_cmd(spec: &CheckSpec, args: &[String]) -> ! {
             }
         }
     }
-    println!("selftest {}: {} runs compared, {} mismatches, {} missing", spec.id, a.len(), bad, fwd.len() - a.len());
+    println!("selftest {}: {} runs compared, {} mismatches, {} missing", spec.id, a.len(), bad, fwd.len().saturating_sub(a.len()));
     std::process::exit(if bad == 0 && a.len() == fwd.len() { 0 } else { 2 });
 }
 
